@@ -12,54 +12,56 @@ import traces as trmod
 
 AXIS_NONE = 77777
 ORDINARY = (ValueError, TypeError, IndexError, KeyError, NotImplementedError, RuntimeError, AttributeError)
+# (hist records the calls made)
 
 
 # ------------------------------------------------------------------ generation (parent process)
+_WEIGHTS = [("cartesian", 2), ("argcomb", 2), ("field", 2), ("withfield", 2), ("rt", 5), ("ufunc", 3), ("filter", 3), ("num", 3),
+            ("flatten", 5), ("localindex", 5), ("pad", 8), ("fillnone", 10), ("isnone", 8), ("mask", 7), ("singletons", 3), ("firsts", 3),
+            ("comb", 3), ("reduce", 6), ("sort", 4), ("concatperm", 3), ("concat0", 2), ("concat1", 3), ("zip", 3), ("unflatten", 3),
+            ("same", 2), ("maysame", 2)]
+_OPS = [name for name, w in _WEIGHTS for _ in range(w)]
+
+
 def _rand_op(rng):
-    k = rng.random()
+    kind = rng.choice(_OPS)
     ax = rng.choice([-3, -2, -1, 0, 1, 2])
-    if k < 0.05:
+    if kind == "cartesian":
+        return "cartesian", {"axis": 1}
+    if kind == "argcomb":
+        return "argcomb", {"axis": abs(ax), "n": rng.randint(1, 2), "repl": rng.randint(0, 1)}   # (documented: non-negative axis only)
+    if kind == "field":
+        return "field", {"key": rng.choice(["x", "y", "a", "b", "0", "1"])}
+    if kind == "withfield":
+        return "withfield", {"key": rng.choice(["x", "y", "a", "b"]), "new": rng.choice(["z", "x", "a"])}
+    if kind == "rt":
         return rng.choice(["rt_buffers", "rt_pickle", "rt_arrow", "rt_json", "rt_iter"]), {}
-    if k < 0.07:
+    if kind == "ufunc":
         return "ufunc", {"mul": rng.randint(0, 1)}
-    if k < 0.10:
+    if kind == "filter":
         return "filter", {"k": rng.choice([-1, 0, 2, 4])}
-    if k < 0.13:
-        return "num", {"axis": ax}
-    if k < 0.18:
+    if kind in ("num", "localindex", "isnone"):
+        return kind, {"axis": ax}
+    if kind == "flatten":
         return "flatten", {"axis": rng.choice([ax, ax, AXIS_NONE])}
-    if k < 0.24:
-        return "localindex", {"axis": ax}
-    if k < 0.34:
+    if kind == "pad":
         return "pad", {"axis": ax, "target": rng.randint(0, 3), "clip": rng.randint(0, 1)}
-    if k < 0.46:
+    if kind == "fillnone":
         return "fillnone", {"axis": rng.choice([ax, ax, AXIS_NONE]), "val": 0}        # val is chosen at run time from the leaf type
-    if k < 0.56:
-        return "isnone", {"axis": ax}
-    if k < 0.64:
+    if kind == "mask":
         return "mask", {"m": [rng.randint(0, 1) for _ in range(12)], "vw": rng.randint(0, 1)}    # cut to the length at run time
-    if k < 0.68:
-        return "singletons", {}
-    if k < 0.72:
-        return "firsts", {}
-    if k < 0.76:
+    if kind == "comb":
         return "comb", {"axis": ax, "n": rng.randint(1, 2), "repl": rng.randint(0, 1)}
-    if k < 0.82:
+    if kind == "reduce":
         return "reduce", {"reducer": rng.choice(["count", "sum", "any", "all", "min", "max", "argmin", "argmax", "count_nonzero"]),
                           "axis": rng.choice([ax, ax, ax, AXIS_NONE]), "mask": 1, "keepdims": rng.randint(0, 1)}
-    if k < 0.86:
+    if kind == "sort":
         return rng.choice(["sort", "argsort"]), {"axis": ax, "asc": rng.randint(0, 1), "stable": 1}
-    if k < 0.89:
-        return "concat0", {}
-    if k < 0.92:
-        return "concat1", {}
-    if k < 0.94:
-        return "zip", {}
-    if k < 0.97:
-        return "unflatten", {}
-    if k < 0.985:
+    if kind == "same":
         return "same", {"o": rng.choice(["packed", "copy"])}
-    return "maysame", {"o": rng.choice(["to_regular", "from_regular"])}
+    if kind == "maysame":
+        return "maysame", {"o": rng.choice(["to_regular", "from_regular"])}
+    return kind, {}                     # singletons, firsts, concatperm, concat0, concat1, zip, unflatten
 
 
 def gen_cases(seed, n, maxops, outdir):
@@ -126,6 +128,9 @@ def _call(ak, np, op, a, A):
     if op in ("sort", "argsort"):
         f = ak.sort if op == "sort" else ak.argsort
         return f(A, axis=a["axis"], ascending=bool(a["asc"]), stable=bool(a["stable"]))
+    if op == "concatperm":
+        keys = ak.fields(A)
+        return ak.concatenate([A, A[keys[::-1]]], axis=0)
     if op == "concat0":
         return ak.concatenate([A, A], axis=0)
     if op == "concat1":
@@ -134,6 +139,14 @@ def _call(ak, np, op, a, A):
         return ak.zip({"a": A, "b": A})
     if op == "unflatten":
         return ak.unflatten(ak.flatten(A, axis=1), ak.num(A, axis=1))
+    if op == "cartesian":
+        return ak.cartesian([A, A], axis=1)
+    if op == "argcomb":
+        return ak.argcombinations(A, a["n"], replacement=bool(a["repl"]), axis=a["axis"])
+    if op == "field":
+        return A[a["key"]]
+    if op == "withfield":
+        return ak.with_field(A, A[a["key"]], a["new"])
     if op == "ufunc":
         return (A * 2 + 1) if a["mul"] else (A + A)
     if op == "filter":
@@ -186,6 +199,10 @@ def h_chain(case, pick, st, stats):
             ev = {"op": op, "v": trmod._tag(cur_list), "T": trmod.parse_type(ty)}
         except (ValueError, TypeError, AssertionError, AttributeError):
             break                                    # outside the model's domain (strings, unions, big numbers): the chain stops
+        if op in ("field", "withfield") and ('"%s":' % a["key"] not in ty and not (a["key"].isdigit() and "(" in ty)):
+            continue                                 # no such field anywhere in the type: a different question (KeyError)
+        if op == "concatperm" and not (ty.startswith("{") and len(ak.fields(A)) >= 2):
+            continue                                 # needs named records with two or more fields at the top
         if op == "mask":
             a["m"] = (a["m"] * 3)[:len(cur_list)]
         if op == "fillnone":
